@@ -12,6 +12,7 @@ FILT = sys.argv[3] if len(sys.argv) > 3 else ""
 APPLY_ONLY = len(sys.argv) > 4 and sys.argv[4] == "--apply"      # apply the (first) selected edit to the worktree and stop
 EXH = "pabutools/rules/exhaustion.py"
 COMP = "pabutools/rules/composition.py"
+GREEDY = "pabutools/rules/greedywelfare/greedywelfare_rule.py"
 
 M = []
 def R(name, *edits): M.append((name, "rewrite", edits))
@@ -370,6 +371,106 @@ B("B31 popularity: dedup dropped", (COMP, """        if res not in results:
     sat_profile = profile.as_sat_profile(sat_class)
     result_support"""))
 B("B32 popularity: indifferent voters support only their first best outcome", (COMP, "            elif s == max_sat:\n                arg_max_sat.append(i)\n", ""))
+# ---------------- the additive fast path of the greedy rule (C03gen) ----------------
+G_DENS = """    def satisfaction_density(proj):
+        total_sat = sat_profile.total_satisfaction_project(proj)
+        if total_sat > 0:
+            if proj.cost > 0:
+                return frac(total_sat, proj.cost)
+            return inf
+        return 0
+"""
+G_SORT = """    ordered_projects = sorted(
+        projects, key=lambda p: (-satisfaction_density(p), projects.index(p))
+    )
+"""
+G_PASS = """    for project in ordered_projects:
+        if project.cost <= remaining_budget:
+            selection.append(project)
+            remaining_budget -= project.cost
+            if analytics:
+                selection.details.mark_as_selected(project, remaining_budget)
+    return selection
+"""
+G_REMOVE = "    for project in budget_allocation:\n        projects.remove(project)\n"
+R("G01 recorded rewrite harmless/rules-2 (density and rank dictionaries)", ("PATCH", "/verif/harmless/rules-2/patch.diff", None))
+R("G02 recorded rewrite harmless/rules2-4 (one sort key, relying on stability)", ("PATCH", "/verif/harmless/rules2-4/patch.diff", None))
+R("G03 recorded rewrite harmless/rules3-1 (general scheme only)", ("PATCH", "/verif/harmless/rules3-1/patch.diff", None))
+R("G04 greedy: local names", (GREEDY, G_PASS, G_PASS.replace("remaining_budget", "money_left").replace("selection", "chosen")),
+  (GREEDY, "    remaining_budget = instance.budget_limit - total_cost(budget_allocation)\n", "    money_left = instance.budget_limit - total_cost(budget_allocation)\n"),
+  (GREEDY, "    selection = BudgetAllocation(\n        budget_allocation, details=GreedyWelfareAllocationDetails()\n    )\n    if analytics:\n        selection.details.projects.extend(",
+   "    chosen = BudgetAllocation(\n        budget_allocation, details=GreedyWelfareAllocationDetails()\n    )\n    if analytics:\n        chosen.details.projects.extend("))
+R("G05 greedy: density with early returns, tests negated", (GREEDY, G_DENS, """    def satisfaction_density(proj):
+        total_sat = sat_profile.total_satisfaction_project(proj)
+        if total_sat <= 0:
+            return 0
+        if proj.cost <= 0:
+            return inf
+        return frac(total_sat, proj.cost)
+"""))
+R("G06 greedy: density as a lambda with conditional expressions", (GREEDY, G_DENS, """    satisfaction_density = lambda proj: (
+        (frac(sat_profile.total_satisfaction_project(proj), proj.cost) if proj.cost > 0 else inf)
+        if sat_profile.total_satisfaction_project(proj) > 0
+        else 0
+    )
+"""))
+R("G07 greedy: `continue` when the project does not fit", (GREEDY, G_PASS, """    for project in ordered_projects:
+        if project.cost > remaining_budget:
+            continue
+        selection.append(project)
+        remaining_budget = remaining_budget - project.cost
+    return selection
+"""))
+R("G08 greedy: named sort key function, selection += [project]", (GREEDY, G_SORT, """    def sort_key(p):
+        return (-satisfaction_density(p), projects.index(p))
+
+    ordered_projects = sorted(projects, key=sort_key)
+"""), (GREEDY, "            selection.append(project)\n            remaining_budget -= project.cost\n", "            selection += [project]\n            remaining_budget -= project.cost\n"))
+R("G09 greedy: statements reordered, copy of the initial allocation iterated", (GREEDY, G_REMOVE, "    for project in list(budget_allocation):\n        projects.remove(project)\n"),
+  (GREEDY, "    remaining_budget = instance.budget_limit - total_cost(budget_allocation)\n", ""),
+  (GREEDY, "    projects = sorted(instance)\n", "    remaining_budget = instance.budget_limit - total_cost(budget_allocation)\n    projects = sorted(instance)\n"))
+R("G10 greedy: 0 < x comparisons, cost read once", (GREEDY, G_DENS, """    def satisfaction_density(proj):
+        total_sat = sat_profile.total_satisfaction_project(proj)
+        price = proj.cost
+        if 0 < total_sat:
+            if 0 < price:
+                return frac(total_sat, price)
+            return inf
+        return 0
+"""))
+R("G11 greedy: remaining budget compared the other way round", (GREEDY, "        if project.cost <= remaining_budget:\n", "        if remaining_budget >= project.cost:\n"))
+R("G12 greedy: the irresolute delegation written with an else", (GREEDY, """            analytics,
+        )
+
+    projects = sorted(instance)
+""", """            analytics,
+        )
+    else:
+        pass
+
+    projects = sorted(instance)
+"""))
+R("G13 greedy: reverse=True instead of the negated key (reverse keeps the order among equal keys)", (GREEDY, G_SORT, "    ordered_projects = sorted(projects, key=lambda p: satisfaction_density(p), reverse=True)\n"))
+R("G14 greedy: reverse=True with the local function itself as key", (GREEDY, G_SORT, "    ordered_projects = sorted(projects, key=satisfaction_density, reverse=True)\n"))
+
+B("GB01 greedy: strict budget test", (GREEDY, "        if project.cost <= remaining_budget:\n", "        if project.cost < remaining_budget:\n"))
+B("GB02 greedy: remaining budget not reduced", (GREEDY, "            remaining_budget -= project.cost\n", ""))
+B("GB03 greedy: ascending density", (GREEDY, "key=lambda p: (-satisfaction_density(p), projects.index(p))", "key=lambda p: (satisfaction_density(p), projects.index(p))"))
+B("GB04 greedy: reverse=True on top of the negated key (ascending density)", (GREEDY, G_SORT, "    ordered_projects = sorted(projects, key=lambda p: -satisfaction_density(p), reverse=True)\n"))
+B("GB05 greedy: zero-cost guard dropped (ZeroDivisionError)", (GREEDY, "            if proj.cost > 0:\n                return frac(total_sat, proj.cost)\n            return inf\n", "            return frac(total_sat, proj.cost)\n"))
+B("GB06 greedy: zero-cost projects get density 0", (GREEDY, "            return inf\n        return 0\n", "            return 0\n        return 0\n"))
+B("GB07 greedy: unsupported projects of cost 0 get density inf (>= for >)", (GREEDY, "        if total_sat > 0:\n            if proj.cost > 0:", "        if total_sat >= 0:\n            if proj.cost > 0:"))
+B("GB08 greedy: tie-breaking order not applied", (GREEDY, "    projects = tie_breaking.order(instance, profile, projects)\n", ""))
+B("GB09 greedy: cost of the initial allocation not deducted", (GREEDY, "    remaining_budget = instance.budget_limit - total_cost(budget_allocation)\n", "    remaining_budget = instance.budget_limit\n"))
+B("GB10 greedy: initial allocation dropped from the result", (GREEDY, "    selection = BudgetAllocation(\n        budget_allocation, details=GreedyWelfareAllocationDetails()\n    )", "    selection = BudgetAllocation(\n        details=GreedyWelfareAllocationDetails()\n    )"))
+B("GB11 greedy: initial projects stay candidates", (GREEDY, G_REMOVE, ""))
+B("GB12 greedy: later position first among equal densities", (GREEDY, "projects.index(p))\n    )", "-projects.index(p))\n    )"))
+B("GB13 greedy: stops at the first project that does not fit", (GREEDY, "            remaining_budget -= project.cost\n            if analytics:\n                selection.details.mark_as_selected(project, remaining_budget)\n", "            remaining_budget -= project.cost\n        else:\n            break\n"))
+B("GB14 greedy: the caller's allocation is appended to", (GREEDY, "    selection = BudgetAllocation(\n        budget_allocation, details=GreedyWelfareAllocationDetails()\n    )", "    selection = budget_allocation"))
+B("GB15 greedy: density inverted (cost per satisfaction)", (GREEDY, "return frac(total_sat, proj.cost)", "return frac(proj.cost, total_sat)"))
+B("GB16 greedy: sorted before the tie-breaking order is applied", (GREEDY, "    projects = tie_breaking.order(instance, profile, projects)\n", ""),
+  (GREEDY, G_SORT, G_SORT + "    ordered_projects = tie_breaking.order(instance, profile, ordered_projects)\n"))
+
 # ---------------- edits that leave the fragment / the aliasing discipline: must fail closed ----------------
 B("B33 increase: the outcome of the rule is mutated in place", (EXH, "            if exhaustive_stop and instance.is_exhaustive(outcome):\n                return outcome\n",
   "            if exhaustive_stop and instance.is_exhaustive(outcome):\n                outcome.extend([])\n                return outcome\n"))
@@ -428,7 +529,7 @@ def main():
         failed = [l.split(":")[0] for l in r.stdout.split("\n") if l.endswith(": FAILS")]
         if kind == "break":
             # an edit of one file must not take the other property's theorems down with it
-            want = "C09gen" if edits[0][0] == EXH else "C19gen"
+            want = {EXH: "C09gen", COMP: "C19gen", GREEDY: "C03gen"}.get(edits[0][0], "C09gen")
             if failed and failed != [want]:
                 verdict += "+" + ",".join(failed)
         if not checks:
